@@ -217,7 +217,13 @@ def check_setup(eng, run, reg):
         run.finding("C17.setup", h, raises[0] if raises else h.node, "the TLS handshake error handler can raise / is not total: a failed handshake of one client propagates")
     run.ob("C17.setup", f"{h.short}:total-no-raise", ok)
     # the user-supplied handshake_error_handler runs under its own catch-all
-    user_cb = {t.id for n in own_nodes(thw.node) if isinstance(n, ast.Assign) and "handshake_error_handler" in ast.unparse(n.value) for t in n.targets if isinstance(t, ast.Name)} | {"handshake_error_handler"}
+    def _is_own_method(v):  # `self.__default_handshake_error_handler`: a method of the listener, not the user's callback
+        if isinstance(v, ast.Attribute) and isinstance(v.value, ast.Name) and thw.cls is not None:
+            return (thw.cls.find_method(mangle(thw.cls.name, v.attr)) or thw.cls.find_method(v.attr)) is not None
+        return False
+
+    user_cb = {t.id for n in own_nodes(thw.node) if isinstance(n, ast.Assign) and "handshake_error_handler" in ast.unparse(n.value) and not _is_own_method(n.value)
+               for t in n.targets if isinstance(t, ast.Name)} | {"handshake_error_handler"}
     calls = [n for n in own_nodes(thw.node) if isinstance(n, ast.Call) and isinstance(n.func, ast.Name) and n.func.id in user_cb]
     ok = bool(calls)
     for c in calls:
